@@ -414,12 +414,23 @@ pub fn show_value(v: &Value) -> String {
   }
 }
 
-/// Full rendering of an implementation value (for comparisons of long strings).
+/// Full rendering of an implementation value (for comparisons of long strings); nested nulls print as `null`
+/// whatever trace message they carry.
 pub fn show_value_full(v: &Value) -> String {
   match v {
     Value::Null(_) => "null".to_string(),
     Value::FunctionDefinition(..) => "<function>".into(),
+    Value::List(items) => format!("[{}]", items.as_vec().iter().map(show_nested).collect::<Vec<_>>().join(", ")),
+    Value::Context(c) => format!("{{{}}}", c.get_entries().iter().map(|(k, x)| format!("{}: {}", k, show_nested(x))).collect::<Vec<_>>().join(", ")),
     other => other.to_string(),
+  }
+}
+
+fn show_nested(v: &Value) -> String {
+  match v {
+    Value::FunctionDefinition(..) => "FunctionDefinition".into(),
+    Value::String(s) => format!("\"{}\"", s),
+    other => show_value_full(other),
   }
 }
 
